@@ -64,11 +64,11 @@ class B:
         self.nodes.append(helper.make_node(op, ins, outs, domain=domain, **attrs))
         return outs[0] if n_out == 1 else outs
 
-    def model(self, extra_imports: list[tuple[str, int]] | None = None) -> onnx.ModelProto:
+    def model(self, extra_imports: list[tuple[str, int]] | None = None, data_prop: bool = True) -> onnx.ModelProto:
         g = helper.make_graph(self.nodes, "g", self.inputs, [helper.make_empty_tensor_value_info(o) for o in self.outputs], initializer=self.inits)
         imports = [helper.make_opsetid("", self.opset)] + [helper.make_opsetid(d, v) for d, v in (extra_imports or [])]
         m = helper.make_model(g, opset_imports=imports, functions=self.functions, ir_version=10)
-        m = onnx.shape_inference.infer_shapes(m, data_prop=True)
+        m = onnx.shape_inference.infer_shapes(m, data_prop=data_prop)
         # graph outputs need types: copy from inferred value_info
         vi = {v.name: v for v in m.graph.value_info}
         for i, o in enumerate(list(m.graph.output)):
@@ -366,7 +366,7 @@ def t_range_cast(r: dict[str, Any]) -> onnx.ModelProto:
     c2 = b.node("Cast", [c1], to=_DT[r["T"]])
     x = b.inp([1], dt)
     b.outputs.append(b.node("Add", [c2, x]))
-    return b.model()
+    return b.model(data_prop=False)
 
 
 def t_dead_and_prune(r: dict[str, Any]) -> onnx.ModelProto:
